@@ -105,7 +105,13 @@ def _atoms(test, pol):
                 l, r = r, l
         if not pol:
             name = NEG[name]
-        return {atom(name, l, r)}
+        out = {atom(name, l, r)}
+        # type(x) is K (or == K) implies isinstance(x, K)
+        if name in ("is", "eq"):
+            for a_, b_ in ((test.left, test.comparators[0]), (test.comparators[0], test.left)):
+                if isinstance(a_, ast.Call) and isinstance(a_.func, ast.Name) and a_.func.id == "type" and len(a_.args) == 1 and isinstance(b_, (ast.Name, ast.Attribute)):
+                    out.add(atom("isinstance", norm(a_.args[0]), norm(b_)))
+        return out
     if isinstance(test, ast.Call) and norm(test.func) == "isinstance" and len(test.args) == 2:
         return {atom("isinstance" if pol else "notisinstance", norm(test.args[0]), norm(test.args[1]))}
     out = {atom("truthy" if pol else "falsy", norm(test))}
